@@ -464,5 +464,45 @@ pub(crate) fn c14_verify_skeleton() {
         if allzero || !s_canonical {
             assert!(!ok, "verify: rejects undecodable keys, the all-zero key and S >= L");
         }
+        // The recorded run does not depend on curve values, so the solver's (key, signature) is almost never a valid triple. Confirm natively on
+        // fixed non-degenerate variants as well; any failing triple is a genuine violation of the for-all statement.
+        let l: [u8; 32] = [0xed, 0xd3, 0xf5, 0x5c, 0x1a, 0x63, 0x12, 0x58, 0xd6, 0x9c, 0xf7, 0xa2, 0xde, 0xf9, 0xde, 0x14, 0, 0, 0, 0, 0, 0, 0, 0, 0, 0, 0, 0, 0, 0, 0, 0x10];
+        for seed in 0..96u8 {
+            let mut sk = [seed; 32];
+            sk[1] = seed.wrapping_mul(37);
+            let (kp, public) = keypair(&sk);
+            let msg = [seed, 1, 2];
+            let good = signature(&msg, &kp);
+            assert!(verify(&msg, &public, &good), "verify: accepts exactly when all 32 bytes of the recomputed R equal the received R");
+            // S + L (when it still fits in 256 bits) must be refused
+            let mut mall = good;
+            let mut carry = 0u16;
+            for i in 0..32 {
+                let t = good[32 + i] as u16 + l[i] as u16 + carry;
+                mall[32 + i] = t as u8;
+                carry = t >> 8;
+            }
+            if carry == 0 {
+                assert!(!verify(&msg, &public, &mall), "verify: rejects undecodable keys, the all-zero key and S >= L");
+            }
+            let mut bad = good;
+            bad[31] ^= 0x10;
+            assert!(!verify(&msg, &public, &bad), "verify: accepts exactly when all 32 bytes of the recomputed R equal the received R");
+        }
+        // the all-zero key decodes to a point of order 4: with R = B, S = 1 and a message whose h is a multiple of 4 the equation holds, yet the key must be refused
+        let zero_key = [0u8; 32];
+        let mut crafted = [0u8; 64];
+        crafted[0] = 0x58;
+        for b in crafted[1..32].iter_mut() {
+            *b = 0x66;
+        }
+        crafted[32] = 1;
+        for m0 in 0..64u8 {
+            let msg = [m0, 0xaa];
+            let h = Sha512::new().update(&crafted[0..32]).update(&zero_key).update(&msg).finalize();
+            if Scalar::reduce_from_wide_bytes(&h).to_bytes()[0] & 3 == 0 {
+                assert!(!verify(&msg, &zero_key, &crafted), "verify: rejects undecodable keys, the all-zero key and S >= L");
+            }
+        }
     }
 }
